@@ -17,6 +17,7 @@ import PybtexModel.Props.C11
 import PybtexModel.Props.C19
 import PybtexModel.Props.C05
 import PybtexModel.Props.C14
+import PybtexModel.Lemmas.BibNorm
 
 namespace Pybtex.Props
 open Pybtex Pybtex.Interp Pybtex.BstSem
@@ -599,6 +600,32 @@ theorem C03_builtin_purify_width_num_names (f : Nat) (s : St) (v : Val) (x : Str
     · exact key []
   · rcases valToStr_cases hx with rfl | ⟨m, rfl, rfl⟩ <;> rfl
   · rintro o (rfl | rfl | rfl) <;> exact ⟨rfl, by ill1⟩
+
+/-- **`num.names$` counts the names.**  With the characterisation of `split_name_list` proved for
+C01 (`BibRT.split_names_spec`, published as `C01_split_names_spec`): for a name list written as
+`n + 1` names joined by `n` separators — each separator a spelling of ` and ` (a blank, `a`/`A`,
+`n`/`N`, `d`/`D`, a blank), each name non-empty, brace-balanced and without a separator match at
+brace level 0 (`NameOk0`) — `num.names$` pushes `n + 1`.  (The equation of
+`C03_builtin_purify_width_num_names` only says "the length of the model's `splitNameList`".) -/
+theorem C03_builtin_num_names_spec (f : Nat) (s : St) (a : Str) (rs : List (Str × Str)) (r : List Val)
+    (ha : BibRT.NameOk0 a) (hr : ∀ x ∈ rs, Spec.isAndSep x.1 = true ∧ BibRT.NameOk0 x.2) :
+    runBuiltin (f+1) .numNames { s with stack := .str (BibRT.joinSeps a rs) :: r } =
+      .ok { s with stack := .int ((rs.length + 1 : Nat) : Int) :: r } := by
+  rw [(C03_builtin_purify_width_num_names f s (.str (BibRT.joinSeps a rs)) _ r rfl).2.2.1,
+    BibRT.split_names_spec.2.2.2.2.2 a rs ha hr]
+  simp
+
+theorem C03_builtin_num_names_spec_nonvacuous :
+    BibRT.NameOk0 "{Barnes and Noble}".toList ∧ BibRT.NameOk0 "Knuth, Donald E.".toList ∧
+    BibRT.NameOk0 "others".toList ∧ Spec.isAndSep " AND ".toList = true ∧ Spec.isAndSep " and ".toList = true ∧
+    BibRT.joinSeps "{Barnes and Noble}".toList
+        [(" AND ".toList, "Knuth, Donald E.".toList), (" and ".toList, "others".toList)] =
+      "{Barnes and Noble} AND Knuth, Donald E. and others".toList ∧
+    (runBuiltin 1 .numNames { ({ vars := initVars } : St) with
+        stack := [.str "{Barnes and Noble} AND Knuth, Donald E. and others".toList] }).toOption.map
+        (fun s => s.stack.map shown) = some ["3".toList] :=
+  ⟨BibRT.split_names_spec_nonvacuous.1.1, BibRT.split_names_spec_nonvacuous.1.2.1,
+    BibRT.split_names_spec_nonvacuous.1.2.2.1, by decide, by decide, by decide +kernel, by decide +kernel⟩
 
 /-- corollary with C12: a purified string consists of letters, digits and blanks only -/
 theorem C03_builtin_purify_spec (f : Nat) (s s' : St) (x : Str) (r : List Val)
